@@ -37,6 +37,12 @@ type muxDial struct {
 	wroteN    []int // (n returned, len requested) pairs for header conn writes
 	wroteLen  []int
 	writeFailed bool
+	ping      bool // after writing everything the client waits for a one-byte reply before it closes
+	delayN    int  // scheduling points before the dial is pushed
+	wroteAll  bool
+	soFar     map[string]int // bytes read so far per accepting listener
+	pingErr   error
+	pinged    bool
 }
 
 type e5 struct {
@@ -60,6 +66,8 @@ type e5 struct {
 	runErr  error
 	acceptErrs map[string]error
 	connOf  map[net.Conn]*muxDial
+	noAcc   map[string]bool // listeners (route prefix or "default") on which nobody calls Accept
+	reRouteStep map[string]int // step at which a second Route(p) handed out a fresh listener
 }
 
 func (x *e5) viol(oracle, sig, detail string) {
@@ -117,14 +125,24 @@ func (x *e5) acceptor(name string, lis net.Listener, max int) {
 		x.rt.Spawn(fmt.Sprintf("reader-%s-conn%d", name, dl.id), func() {
 			var buf bytes.Buffer
 			p := make([]byte, 64)
+			replied := false
 			for {
 				var n int
 				var err error
 				x.call("Read "+name, func() { n, err = c2.Read(p) })
 				buf.Write(p[:n])
+				dl.soFar[name] = buf.Len()
 				if err != nil {
 					dl.readErr[name] = err
 					break
+				}
+				want := len(dl.full)
+				if name != "default" {
+					want -= x.n
+				}
+				if dl.ping && !replied && buf.Len() >= want {
+					replied = true
+					x.call("Reply "+name, func() { _, _ = c2.Write([]byte{'!'}) })
 				}
 			}
 			dl.got[name] = buf.Bytes()
@@ -133,7 +151,7 @@ func (x *e5) acceptor(name string, lis net.Listener, max int) {
 }
 
 func (x *e5) dialer(dl *muxDial) {
-	x.delay(dl.id % 5)
+	x.delay(dl.id%5 + dl.delayN)
 	x.call("push", func() {
 		dl.pushed, dl.pushStep = true, x.d.Step
 		x.base.Push(dl.b)
@@ -197,6 +215,12 @@ func (x *e5) dialer(dl *muxDial) {
 		}
 		wg.Wait()
 	}
+	dl.wroteAll = !dl.writeFailed
+	if dl.ping && dl.wroteAll {
+		one := make([]byte, 1)
+		x.call(fmt.Sprintf("ReadReply conn%d", dl.id), func() { _, dl.pingErr = io.ReadFull(dl.a, one) })
+		dl.pinged = dl.pingErr == nil
+	}
 	x.delay(2)
 	x.call(fmt.Sprintf("Close conn%d", dl.id), func() { dl.a.Close() })
 	dl.closedByClient = true
@@ -251,7 +275,7 @@ func runE5(spec RunSpec, ch *Choices) *RunResult {
 	ndial := 2 + ch.Pick("cfg", 5)
 	for i := 0; i < ndial; i++ {
 		st := fmt.Sprintf("dial%d", i)
-		dl := &muxDial{id: i, got: map[string][]byte{}, readErr: map[string]error{}}
+		dl := &muxDial{id: i, got: map[string][]byte{}, readErr: map[string]error{}, soFar: map[string]int{}}
 		dl.a, dl.b = x.net.Pipe(fmt.Sprintf("conn%d", i), -1)
 		body := []byte(fmt.Sprintf("conn%d:", i))
 		for j := 0; j < ch.Pick(st, 40); j++ {
@@ -273,6 +297,15 @@ func runE5(spec RunSpec, ch *Choices) *RunResult {
 			dl.prefix = dl.header
 			dl.writers = 1 + ch.Pick(st, 3)
 		}
+		if !dl.short && dl.header == "" {
+			if ch.Bool(st, 0.15) {
+				dl.body = nil // the client's bytes end exactly at the prefix boundary
+			}
+			dl.ping = ch.Bool(st, 0.4)
+		}
+		if ch.Bool(st, 0.3) {
+			dl.delayN = ch.Pick(st, 60)
+		}
 		dl.full = append([]byte(dl.prefix), dl.body...)
 		left := len(dl.full)
 		for left > 0 {
@@ -282,7 +315,7 @@ func runE5(spec RunSpec, ch *Choices) *RunResult {
 		}
 		dl.splits = append(dl.splits, 1<<20)
 		x.dials = append(x.dials, dl)
-		desc = append(desc, fmt.Sprintf("dial%d prefix=%q body=%d short=%v header=%v writers=%d splits=%v", i, dl.prefix, len(dl.body), dl.short, dl.header != "", dl.writers, dl.splits[:min(len(dl.splits), 6)]))
+		desc = append(desc, fmt.Sprintf("dial%d prefix=%q body=%d short=%v header=%v writers=%d ping=%v delay=%d splits=%v", i, dl.prefix, len(dl.body), dl.short, dl.header != "", dl.writers, dl.ping, dl.delayN, dl.splits[:min(len(dl.splits), 6)]))
 	}
 	// record what clients hand to the transport
 	x.net.OnAccept = func(e *Endpoint, p []byte) {
@@ -298,12 +331,28 @@ func runE5(spec RunSpec, ch *Choices) *RunResult {
 		x.d.Logf("  %s", l)
 	}
 
+	x.noAcc, x.reRouteStep = map[string]bool{}, map[string]int{}
+	for _, p := range x.routes {
+		if ch.Bool("cfg", 0.15) {
+			x.noAcc[p] = true
+		}
+	}
+	if ch.Bool("cfg", 0.15) {
+		x.noAcc["default"] = true
+	}
+	reRoute := ch.Bool("cfg", 0.5)
+	if len(x.noAcc) > 0 {
+		desc = append(desc, fmt.Sprintf("no-acceptor=%v", x.noAcc))
+		x.d.Logf("  no-acceptor=%v", x.noAcc)
+	}
 	register := func(p string) {
 		var lis net.Listener
 		x.call("Route "+p, func() { lis = x.mux.Route(p) })
 		x.routeLis[p] = lis
 		x.routeRegStep[p] = x.d.Step
-		x.rt.Spawn("acceptor-"+p, func() { x.acceptor(p, lis, 10) })
+		if !x.noAcc[p] {
+			x.rt.Spawn("acceptor-"+p, func() { x.acceptor(p, lis, 10) })
+		}
 	}
 	x.rt.Spawn("setup", func() {
 		for i, p := range x.routes {
@@ -315,7 +364,9 @@ func runE5(spec RunSpec, ch *Choices) *RunResult {
 			}
 			register(p)
 		}
-		x.rt.Spawn("acceptor-default", func() { x.acceptor("default", x.mux.Default(), 10) })
+		if !x.noAcc["default"] {
+			x.rt.Spawn("acceptor-default", func() { x.acceptor("default", x.mux.Default(), 10) })
+		}
 		x.rt.Spawn("run", func() {
 			err := x.mux.Run(ctx)
 			x.runDone, x.runErr = true, err
@@ -332,6 +383,21 @@ func runE5(spec RunSpec, ch *Choices) *RunResult {
 				if lis := x.routeLis[p]; lis != nil {
 					x.routeClosedStep[p] = x.d.Step
 					x.call("Close route "+p, func() { lis.Close() })
+					if reRoute {
+						// register the prefix again: either the closed listener comes
+						// back (its Accept fails) or a fresh one that stays registered
+						x.delay(ch.Pick("cfg", 6))
+						var lis2 net.Listener
+						x.call("Route again "+p, func() { lis2 = x.mux.Route(p) })
+						if lis2 != lis {
+							x.reRouteStep[p] = x.d.Step
+							x.res.probe("reroute_fresh_listener")
+							x.d.Logf("  route %s registered again with a fresh listener", p)
+						}
+						if !x.noAcc[p] {
+							x.rt.Spawn("acceptor-"+p, func() { x.acceptor(p, lis2, 10) })
+						}
+					}
 				}
 			})
 		}
@@ -470,6 +536,10 @@ func (x *e5) checkRouting(stopped bool) {
 					if reg, ok := x.routeRegStep[p]; ok && reg < dl.pushStep && x.routeClosedStep[p] == 0 {
 						x.viol("routing", "connection with a registered prefix was delivered to the default listener", fmt.Sprintf("%s prefix=%q", id, p))
 					}
+					// ... or registered again (fresh listener handed out) before it arrived
+					if rr := x.reRouteStep[p]; rr > 0 && rr < dl.pushStep {
+						x.viol("routing", "connection with a prefix registered again after its listener was closed was delivered to the default listener", fmt.Sprintf("%s prefix=%q", id, p))
+					}
 				}
 			} else {
 				if len(clientBytes) < x.n || string(clientBytes[:x.n]) != name {
@@ -487,9 +557,34 @@ func (x *e5) checkRouting(stopped bool) {
 				}
 			}
 			waiting := len(dl.sent) < x.n && !dl.closedByClient
-			if !dl.b.IsClosed() && !inBase && !waiting && !x.base.closed {
+			// handed to a listener on which nobody calls Accept: parked there, legitimately
+			parked := false
+			if len(dl.sent) >= x.n {
+				p := string(dl.sent[:x.n])
+				if _, isRoute := x.routeRegStep[p]; isRoute {
+					parked = x.noAcc[p] || x.noAcc["default"] // (default: the route may not have been registered yet)
+				} else {
+					parked = x.noAcc["default"]
+				}
+			}
+			if !dl.b.IsClosed() && !inBase && !waiting && !parked && !x.base.closed {
 				x.viol("routing", "connection accepted by the base listener was neither delivered to a listener nor closed", fmt.Sprintf("%s sent=%d", id, len(dl.sent)))
 			}
+		}
+	}
+	// a connection that was delivered yields the bytes its client has written, as
+	// they arrive (a client that waits for an answer never closes first)
+	for _, dl := range x.dials {
+		if len(dl.accepted) != 1 || !dl.wroteAll || dl.b.IsClosed() || dl.a.IsClosed() {
+			continue
+		}
+		name := dl.accepted[0]
+		want := len(dl.sent)
+		if name != "default" {
+			want -= x.n
+		}
+		if dl.soFar[name] < want {
+			x.viol("routing", "delivered connection withholds bytes its client has written (the client is waiting for the answer)", fmt.Sprintf("conn%d listener=%s read=%d written=%d", dl.id, name, dl.soFar[name], want))
 		}
 	}
 	if stopped {
